@@ -150,7 +150,7 @@ def check(run):
         c = rnd.random()
         if c < 0.45:
             opts, stream, dec = L.GOpts(untyped=False, nested=False), 'typed', None
-        elif c < 0.6:
+        elif c < 0.65:
             opts, stream, dec = L.GOpts(untyped=False, nested=True), 'typed-nested', None
         else:
             opts, stream = L.GOpts(untyped=True, nested=rnd.random() < 0.5), 'untyped'
@@ -172,7 +172,7 @@ def check(run):
         seen_src.add(src)
         # a truthful resolver usually cannot know the parameters of a LOCAL function: unknown in the corpus and
         # in half of the generated programs, observed types in the other half
-        lau = stream == 'corpus' or lau_rnd.random() < 0.5
+        lau = stream == 'corpus' or lau_rnd.random() < 0.65
         try:
             r = one_program(src, vecs, decline=dec[0] if dec else None, local_args_unknown=lau)
         except Exception as e:   # noqa
